@@ -1,20 +1,7 @@
 import PseudoModel.Codec
+import PseudoModel.FilesPure
+import PseudoModel.Store
 namespace Pseudo
-
-inductive FsNode
-  | file (s : Str)
-  | dir
-  | devFull
-deriving Repr, Inhabited
-
-structure Handle where
-  name : Str
-  mode : FileMode
-  rest : Str := []            -- READ: unread text
-  records : List Str := []    -- RANDOM
-  ptr : Nat := 0
-  modified : Bool := false
-deriving Repr, Inhabited
 
 /-- places where the C++ would end abnormally (kept explicit so that C01 means something) -/
 inductive CrashPoint
